@@ -145,7 +145,7 @@ func VerifC06Steps() {
 			verifAssume(n < int(verifParam("maxReqs", 3)))
 			n++
 			prio := int64(1 + verifChoose(fmt.Sprintf("prio%d", st), 2))
-			verifAdvance(1_000_000) // arrivals are 1 ms apart
+			verifAdvance(1_000) // arrivals are 1 µs apart (finer than any coarser timestamp unit)
 			r := h.arrive(p, n, prio, ttl)
 			waiting := 0
 			for _, o := range h.reqs {
